@@ -1,0 +1,21 @@
+// SPDX-FileCopyrightText: 2020 Alvar Penning
+//
+// SPDX-License-Identifier: GPL-3.0-or-later
+
+//go:build verif
+// +build verif
+
+package agent
+
+import "sync/atomic"
+
+// verifHook is installed by the verification harness (build tag "verif") to pause a goroutine at a
+// named schedule point. It is never set in regular builds; compare verifhook_off.go.
+var verifHook atomic.Value // func(string)
+
+// verifPoint marks a schedule point for the verification harness.
+func verifPoint(name string) {
+	if f, ok := verifHook.Load().(func(string)); ok && f != nil {
+		f(name)
+	}
+}
